@@ -39,6 +39,47 @@ class depth_limit:
         _DEPTH[0] = self.old
 
 
+_APPLY_CACHE = {}
+
+
+def _apply_value(e):
+    """value of `f(arg)` for the error-mapping closure / fn item of `map_err(f)` and `ok_or_else(f)`: the closure body is walked
+    with its captures and argument substituted; None when it is not a single straight-line return"""
+    try:
+        if e in _APPLY_CACHE:
+            return _APPLY_CACHE[e]
+    except TypeError:
+        return None
+    import mirlib
+    res = None
+    f = strip_refs(e[1])
+    args = tuple(e[2:])
+    if isinstance(f, tuple) and f[0] == "fnref":
+        res = ("call", f[1], args, 0)
+    elif isinstance(f, tuple) and f[0] == "agg" and f[1] == "closure":
+        for prog in mirlib.PROGS:
+            if f[2] in prog.fns:
+                try:
+                    ps = [p for p in apply_closure(prog, f, args) if p.leaf[0] not in ("panic", "unwind", "unreachable")]
+                except Exception:
+                    ps = []
+                if len(ps) == 1 and ps[0].leaf[0] == "return":
+                    res = ps[0].leaf[1]
+                break
+    _APPLY_CACHE[e] = res
+    return res
+
+
+CONV = re.compile(r"(^|<.* as )std::convert::(From|Into)(<.*>)?(>)?::(from|into)$")
+
+
+def strip_conv(e):
+    """drop a top-level `From::from` / `Into::into` (error conversion)"""
+    while isinstance(e, tuple) and e and e[0] == "call" and len(e[2]) == 1 and CONV.search(e[1]):
+        e = e[2][0]
+    return e
+
+
 def canon(e, keep_sites=False):
     return _canon(e, keep_sites, 0)
 
@@ -80,6 +121,13 @@ def _canon(e, keep_sites, _d):
         s = "%s(%s)" % (last2(e[1]), ",".join(canon(a, keep_sites) for a in e[2]))
         return s + ("@%d" % e[3] if keep_sites else "")
     if k == "f":
+        b = e[1]
+        if isinstance(b, tuple) and b[0] == "dc" and e[2] in (0, "0"):
+            # payload of a known variant: `(x as Ok).0` / `(x as Some).0` is what `x?` continues with, `(x as Err).0` what it returns
+            if b[2] in ("Ok", "Some"):
+                return "ok(%s)" % canon(b[1], keep_sites)
+            if b[2] == "Err":
+                return "err(%s)" % canon(b[1], keep_sites)
         return "%s.%s" % (canon(e[1], keep_sites), e[2])
     if k == "dc":
         return "(%s as %s)" % (canon(e[1], keep_sites), e[2])
@@ -88,6 +136,9 @@ def _canon(e, keep_sites, _d):
             nm = adt_short(e[2], e[3])
             if not e[5]:
                 return nm
+            if nm == "Result::Err" and len(e[5]) == 1:
+                # the error conversion of `?` / `.into()` / `From::from` is type-directed: not part of the table
+                return "Result::Err(%s)" % canon(strip_conv(e[5][0]), keep_sites)
             return "%s(%s)" % (nm, ",".join(canon(a, keep_sites) for a in e[5]))
         if e[1] == "tuple":
             return "(%s)" % ",".join(canon(a, keep_sites) for a in e[5])
@@ -100,21 +151,35 @@ def _canon(e, keep_sites, _d):
         return "%s(%s)" % (e[1], canon(e[2], keep_sites))
     if k == "cast":
         return "(%s as %s)" % (canon(e[2], keep_sites), e[3])
-    if k == "ref":
-        return "&" + canon(e[1], keep_sites)
-    if k == "deref":
-        return "*" + canon(e[1], keep_sites)
+    if k in ("ref", "deref"):
+        # borrows and derefs are invisible in the normal form: `&x`, `*x`, `&*x` all denote x (the type system, not the table, owns them)
+        return canon(e[1], keep_sites)
     if k == "discr":
         return "discr(%s)" % canon(e[1], keep_sites)
     if k == "idx":
         return "%s[%s]" % (canon(e[1], keep_sites), canon(e[2], keep_sites))
     if k == "rep":
         return "[%s;%s]" % (canon(e[1], keep_sites), e[2])
-    if k in ("await", "poll", "branch", "ok", "some", "resid", "err"):
+    if k == "some":
+        return "ok(%s)" % canon(e[1], keep_sites)
+    if k in ("await", "poll", "branch", "ok", "resid", "err"):
         return "%s(%s)" % (k, canon(e[1], keep_sites))
     if k == "errret":
-        return "Err(from(%s))" % canon(err_of(e[1]), keep_sites)
+        # what `x?` returns, spelled like the explicit `return Err(e)` of the function's return type
+        ty = e[2] if len(e) > 2 else ""
+        er = err_of(e[1])
+        if ty.startswith("std::option::Option<") and not (isinstance(er, tuple) and er[0] != "err"):
+            return "Option::None"
+        inner = "Result::Err(%s)" % canon(strip_conv(er), keep_sites)
+        if ty.startswith("std::task::Poll<std::option::Option<"):
+            return "Poll::Ready(Option::Some(%s))" % inner
+        if ty.startswith("std::task::Poll<"):
+            return "Poll::Ready(%s)" % inner
+        return inner
     if k == "apply":
+        r = _apply_value(e)
+        if r is not None:
+            return canon(r, keep_sites)
         return "apply(%s)" % ",".join(canon(a, keep_sites) for a in e[1:])
     return "%s(…)" % k
 
@@ -264,6 +329,10 @@ OPS = {"Eq": "==", "Ne": "!=", "Lt": "<", "Le": "<=", "Gt": ">", "Ge": ">="}
 def atom_str(a):
     k = a[0]
     if k == "is":
+        if a[2] in ("Ok", "Some"):
+            return "%s ok" % canon(a[1])
+        if a[2] in ("Err", "None"):
+            return "%s fails" % canon(a[1])
         return "%s is %s" % (canon(a[1]), a[2])
     if k == "isnot":
         return "%s isnot %s" % (canon(a[1]), "|".join(a[2]))
